@@ -452,12 +452,14 @@ func child() {
 		}
 	}
 	rec.log("quiesce", "", "", 0)
-	// drain: no notification for quiet = max(10 publishing intervals, 500 ms); give up after 15 s
-	quiet := time.Duration(10*c.Interval) * time.Millisecond
-	if quiet < 500*time.Millisecond {
-		quiet = 500 * time.Millisecond
+	// drain: no notification for quiet = max(20 publishing intervals, 2 s); give up after 20 s.
+	// (a 500 ms gap was too short on a loaded machine: the server's goroutines can be starved
+	// for that long while notifications are still pending, which made the final read premature)
+	quiet := time.Duration(20*c.Interval) * time.Millisecond
+	if quiet < 2*time.Second {
+		quiet = 2 * time.Second
 	}
-	deadline := time.Now().Add(15 * time.Second)
+	deadline := time.Now().Add(20 * time.Second)
 	lastNotify.Store(time.Now().UnixNano())
 	for time.Now().Before(deadline) {
 		if time.Since(time.Unix(0, lastNotify.Load())) >= quiet {
